@@ -1,4 +1,5 @@
 import MudProof.Properties.C04
+import MudProof.StepThm
 open Mud.C04
 #print axioms hop_allowed_down
 #print axioms hop_allowed_up_iff
@@ -16,3 +17,4 @@ open Mud.C04
 #print axioms event_complete
 #print axioms event_steps_increasing
 #print axioms event_counts
+#print axioms Mud.StepThm.shStep_event
